@@ -31,6 +31,7 @@ func init() {
 			{"C11.R10", "q", "reply shapes: every line CRLF-terminated, VALUE blocks closed by END", c11r10},
 			{"C11.R8", "q", "no lock across blocking channel operations", c11r8},
 			{"C15.R1", "q", "shared: bucket used only when READY (otherwise nil dereference ⇒ contained panic, no reply)", c15r1},
+			{"C11.R11", "q", "command line split on the ASCII space only", c11r11},
 		},
 	})
 }
